@@ -1,17 +1,84 @@
 (* C02 -- the Verilog reader yields the circuit the netlist denotes.  Statements only; proofs in Proofs/VerilogProofs.v. *)
 From CG Require Import Verilog.ExprParse.
 From stdpp Require Import strings gmap sets.
-From CG Require Import Types Sem Api Gen.Gen_grammar Verilog.Ast Verilog.Read Proofs.VerilogProofs.
+From CG Require Import Types Sem Api Gen.Gen_grammar Verilog.Ast Verilog.Read Proofs.VerilogProofs Run.Run_C02.
 Open Scope string_scope.
 
-(* obligation on the regenerated rule table of verilog.lark (expression .. primary, named_port_connection, IDENTIFIER):
-   it is the table that the stratified tree type of ExprParse.v implements *)
+(* (1) obligation on the regenerated rule table of verilog.lark (expression .. primary, named_port_connection,
+   IDENTIFIER): it is the table that the stratified tree type of ExprParse.v implements *)
 Theorem C02_grammar_table_ok : grammar_table_okb = true.
 Proof. vm_compute. reflexivity. Qed.
 Print Assumptions C02_grammar_table_ok.
 
-(* the parser of that tree type returns, for every tree and every continuation that does not extend the phrase, the tree
-   itself: the grammar is unambiguous on its own yields and stratification is precedence *)
+(* every tree's token string is derivable in that rule table ... *)
+Theorem C02_print_derivable : ∀ c, der grammar_rules "condition" (pr_cond c).
+Proof. exact (print_derivable C02_grammar_table_ok). Qed.
+Print Assumptions C02_print_derivable.
+
+(* ... and the parser of the tree type returns, for every tree and every continuation that does not extend the phrase,
+   the tree itself: the grammar is unambiguous on its own yields and stratification is precedence *)
 Theorem C02_parse_print_cond : ∀ c rest, fol_cond rest = true → ∃ F, p_cond F (pr_cond c ++ rest)%list = Some (c, rest).
 Proof. exact parse_print_cond. Qed.
 Print Assumptions C02_parse_print_cond.
+
+(* (2) for every expression tree and every circuit: when the transformer's callbacks succeed, every existing node is
+   left alone and, under every consistent valuation of the resulting circuit, the returned node carries the Verilog value
+   of the expression (1'b0 / 1'b1 being the constant nodes, all 1'bx the node tie_x; ternary as mux; equal operands of
+   parity operators cancelled).  Freshness of the created names is not a hypothesis: uid is proved to return a name
+   outside the graph and the reserved identifiers. *)
+Theorem C02_compile_expr_correct : ∀ k g ge e g' ge' r,
+  c_cond k (g, ge) e = Ok ((g', ge'), r) →
+  g ⊆ g' ∧ ∀ v, ties_ok k g → consistent g' v → v r = sem_cond v (v (k_tx k)) e.
+Proof. intros k g ge e g' ge' r H. exact (compile_cond_ok e k (g, ge) (g', ge') r H). Qed.
+Print Assumptions C02_compile_expr_correct.
+
+Theorem C02_uid_fresh : ∀ used n, uid_in used n ∉ used.
+Proof. exact uid_in_fresh. Qed.
+Print Assumptions C02_uid_fresh.
+
+(* one gate callback: exactly one new node, of the given type, over exactly the given operands, outside graph and
+   reserved identifiers; operands that are no nodes yet become undriven buffers *)
+Theorem C02_gate_spec : ∀ k st prefix t items fi rem st' r, gate k st prefix t items fi rem = Ok (st', r) → fi ≠ [] →
+  st.1 ⊆ st'.1 ∧ st'.1 !! r = Some (mk_node t false (list_to_set fi)) ∧ r ∉ dom st.1 ∧ r ∉ k_rsv k ∧
+  (∀ x, x ∈ dom st'.1 → x ∈ dom st.1 ∨ x = r ∨ (x ∈ fi ∧ st'.1 !! x = Some (mk_node Buf false ∅))) ∧
+  st'.2 ⊆ {[r]} ∪ st.2.
+Proof. exact gate_spec. Qed.
+Print Assumptions C02_gate_spec.
+
+(* (3) a port list that disagrees with the declarations is never accepted *)
+Theorem C02_port_mismatch_rejected : ∀ rsv bbs m C, read rsv bbs m = Ok C → ports_match m = true.
+Proof. exact read_rejects_port_mismatch. Qed.
+Print Assumptions C02_port_mismatch_rejected.
+
+(* full statements for whole modules; not proved, decided per generated module by Run_C02.holds (which evaluates the
+   same guard in_subset and the executable form `denotes` of the conclusion) *)
+Definition C02_read_io_full : Prop := ∀ rsv bbs m C,
+  in_subset bbs m = true → list_to_set (module_ids m) ⊆ rsv → read rsv bbs m = Ok C →
+  inputs (c_g C) = list_to_set (decl_inputs m) ∧ outputs (c_g C) = list_to_set (decl_outputs m).
+Definition C02_read_denotes_full : Prop := ∀ rsv bbs m,
+  ports_match m = true → in_subset bbs m = true → list_to_set (module_ids m) ⊆ rsv →
+  ∃ C, read rsv bbs m = Ok C ∧ c_name C = m_name m ∧
+    c_bbs C = list_to_map ((λ x, (x.1.1, x.1.2)) <$> bb_insts bbs m) ∧
+    (∀ x, x ∈ bb_insts bbs m → bb_ok (c_g C) x = true) ∧
+    (∀ w, consistent (c_g C) w → ∃ x, sat_module m w x) ∧
+    (∀ v x, sat_module m v x → ∃ w, consistent (c_g C) w ∧ ∀ n, n ∈ used_nets m → w n = v n).
+
+(* non-vacuity *)
+Definition ex_rsv : gset string := list_to_set ["module"; "top"; "a"; "b"; "o"; "not_a"; "input"; "output"; "assign"; "endmodule"; "b0"].
+Definition ex_mod : vmodule :=
+  Md "top" ["a"; "b"; "o"; "not_a"]
+     [IInput ["a"; "b"]; IOutput ["o"; "not_a"];
+      IAssign [("o", CTern (OXor (XAnd (AUn (UNot (PId "a"))))) (OXor (XXor (XAnd (L02 (PId "a"))) (L02 (PId "b")))) (L04 (PConst K0)));
+               ("not_a", L25 (AAnd (L02 (PId "a")) (UPrim (PId "b"))))]].
+Example C02_ex_in_subset : ports_match ex_mod = true ∧ in_subset [] ex_mod = true ∧ bool_decide (list_to_set (module_ids ex_mod) ⊆ ex_rsv) = true.
+Proof. vm_compute. done. Qed.
+Example C02_ex_read : match read ex_rsv [] ex_mod with Ok C => denotes [] ex_mod C | _ => false end = true.
+Proof. vm_compute. reflexivity. Qed.
+Definition ex_ctx := init_ctx ex_rsv [].
+Example C02_ex_compile :
+  match c_cond ex_ctx.1 (ex_ctx.2, ∅) (L25 (AAnd (L02 (PId "a")) (UNot (PId "b")))) with Ok _ => true | _ => false end = true ∧
+  ties_ok ex_ctx.1 ex_ctx.2.
+Proof.
+  split; [vm_compute; reflexivity|].
+  split; [exists (mk_node C0 false ∅)|exists (mk_node C1 false ∅)]; (split; [vm_compute; reflexivity|done]).
+Qed.
